@@ -123,10 +123,14 @@ def with_extras(rng, rows, extras):
 
 # ------------------------------------------------------------ copy-number arrays
 
-def make_cna(columns, meta=None, index=None):
-    """CopyNumArray from a dict of columns (chromosome,start,end,gene,log2,...)."""
+def make_cna(columns, meta=None, index=None, odd=False):
+    """CopyNumArray from a dict of columns (chromosome,start,end,gene,log2,...).
+    odd=True gives non-default (unique, increasing) row labels, as a filtered
+    array has: label-vs-position slips only show on such tables."""
     from cnvlib.cnary import CopyNumArray
     df = pd.DataFrame(columns)
+    if index is None and odd:
+        index = np.arange(len(df)) * 2 + 5
     if index is not None:
         df.index = index
     return CopyNumArray(df, meta or {"sample_id": "S"})
